@@ -754,7 +754,7 @@ class Fxp():
         # store reads as wrapped int64 differences: they are kept as Python integers)
         _from_python = not isinstance(val, (np.ndarray, np.generic))
         val = np.array(val)
-        if _from_python and val.dtype == np.uint64:
+        if _from_python and val.dtype == np.uint64 and val.size > 0 and int(val.max()) >= 2**63:
             val = val.astype(object)
 
         if vdtype is None:
